@@ -39,6 +39,7 @@ inductive Res where
   | nan
   | arr (xs : List (List Nat))
   | undef
+  | bool (b : Bool)
   | throwType
   | panic                    -- a Go run-time panic (nil dereference, slice bounds) escapes
 deriving DecidableEq, Repr, Inhabited
@@ -454,5 +455,79 @@ def toLowerCase (E : Env) (r : Recv) (_args : List Val) : Res :=
 def toUpperCase (E : Env) (r : Recv) (_args : List Val) : Res :=
   if !coercible r then .throwType else
   .str (U (encodeRunes ((decodeRunes (thisString E r)).map goUpper)))
+
+/-! ## The own properties of a String object (type_string.go newStringObject / stringGetOwnProperty /
+     stringEnumerate, object_class.go objectHasOwnProperty / objectCanPut / objectPut / objectDefineOwnProperty,
+     builtin_object.go hasOwnProperty / propertyIsEnumerable / getOwnPropertyDescriptor / keys / getOwnPropertyNames) -/
+
+def sLength : List Nat := [108, 101, 110, 103, 116, 104]
+
+/-- a String object: its value and the names in its plain property map, in insertion order
+    (newStringObject defines "length" first, mode 0; expandos are written with mode 0111) -/
+structure SObj where
+  s : List Nat
+  props : List (List Nat)
+deriving DecidableEq, Repr
+
+def SObj.new (s : List Nat) : SObj := ⟨s, [sLength]⟩
+
+/-- the computed index property of stringGetOwnProperty: the code unit, if `name` is an array index below the length -/
+def SObj.indexUnit (o : SObj) (name : List Nat) : Option Nat :=
+  let idx := stringToArrayIndex name
+  if idx ≥ 0 then stringAt o.s idx else none
+
+/-- stringGetOwnProperty ≠ nil: the plain map first, then the computed index properties -/
+def SObj.getOwn (o : SObj) (name : List Nat) : Bool :=
+  o.props.contains name || (o.indexUnit name).isSome
+
+/-- `o[name] = v` (objectPut after objectCanPut): "length" and the index properties are not writable, so the
+    assignment is dropped; an existing expando is overwritten; any other name (assumed absent from the
+    prototype chain) is added at the end of the map -/
+def SObj.put (o : SObj) (name : List Nat) : SObj :=
+  if o.getOwn name then o else { o with props := o.props ++ [name] }
+
+def SObj.build (s : List Nat) (exps : List (List Nat)) : SObj := exps.foldl SObj.put (SObj.new s)
+
+/-- objectHasOwnProperty: the virtual getOwnProperty ≠ nil -/
+def SObj.hasOwn (o : SObj) (name : List Nat) : Bool := o.getOwn name
+
+/-- objectHasProperty (`in`), for names the prototype chain does not define -/
+def SObj.hasProperty (o : SObj) (name : List Nat) : Bool := o.getOwn name
+
+/-- the decimal name of an index -/
+def indexNames (n : Nat) : List (List Nat) := (List.range n).map formatNat
+
+/-- stringEnumerate(all): the indices below the length, then objectEnumerate over the plain map
+    ("length" is not enumerable, expandos are) -/
+def SObj.enumerate (o : SObj) (all : Bool) : List (List Nat) :=
+  indexNames (strLength o.s) ++ o.props.filter (fun n => all || n != sLength)
+
+/-- Object.keys -/
+def SObj.keys (o : SObj) : List (List Nat) := o.enumerate false
+/-- Object.getOwnPropertyNames: enumerate(all) filtered by hasOwnProperty -/
+def SObj.ownNames (o : SObj) : List (List Nat) := (o.enumerate true).filter o.hasOwn
+
+/-- Object.getOwnPropertyDescriptor as (value, [writable, enumerable, configurable]); expandos hold the value 1.
+    Results: `.arr [value units, [w,e,c]]` for a string value, `.arr [[n], [w,e,c], []]` for the number n -/
+def SObj.desc (o : SObj) (name : List Nat) : Res :=
+  if o.props.contains name then
+    if name = sLength then .arr [[strLength o.s], [0, 0, 0], []] else .arr [[1], [1, 1, 1], []]
+  else match o.indexUnit name with
+    | some chr => .arr [U (encodeRune chr), [0, 0, 0]]          -- &property{stringValue(string(chr)), 0}: mode 0
+    | none => .undef
+
+/-- propertyIsEnumerable -/
+def SObj.isEnumerable (o : SObj) (name : List Nat) : Bool :=
+  if o.props.contains name then name != sLength else false      -- index properties carry mode 0
+
+/-- Object.defineProperty(o, name, {value: "x"}) then o[name]: objectDefineOwnProperty consults only the plain
+    map (readProperty), so an index name is "new", gets written and shadows the character -/
+def SObj.defineX (o : SObj) (name : List Nat) : Res :=
+  if o.props.contains name then
+    if name = sLength then .throwType else .str [120]
+  else .str [120]
+
+/-- the string a receiver of these observers wraps -/
+def recvString (E : Env) : Recv → List Nat := thisString E
 
 end OttoVerif.C09
